@@ -1,5 +1,6 @@
 """Regenerates /verif/MANIFEST.json from the property modules (python -m lmmverif.manifest)."""
 import importlib
+from .shard import dimension_note
 import json
 import os
 import subprocess
@@ -30,7 +31,7 @@ def main():
             "engine": "lmmverif",
             "level_claimed": {
                 "category": "exploration",
-                "text": mod.LEVEL_TEXT.replace("{Q}", f"{mod.CASES['quick']:,}").replace("{T}", f"{mod.CASES['thorough']:,}"),
+                "text": mod.LEVEL_TEXT.replace("{Q}", f"{mod.CASES['quick']:,}").replace("{T}", f"{mod.CASES['thorough']:,}") + dimension_note(mod),
                 "design_ref": f"DESIGN.md section 4 ({pid}), sections 3 and 5",
             },
             "level_note": mod.LEVEL_NOTE,
